@@ -544,18 +544,6 @@ Definition ever_had (sch : schema) (cols : list bytes) (t : list cv) (d : drec) 
           (d_vers d).
 Definition holds_now (sch : schema) (cols : list bytes) (t : list cv) (d : drec) : bool :=
   match cur d with Some l => tuple_eqb (s_nz sch) (tuple_of sch cols (l_id l) (l_row l)) t | None => false end.
-(* deprecateIndexEntries wrote a tombstone under the bare value prefix of t: some document went
-   from tuple t to a different tuple in two consecutive versions *)
-Fixpoint left_tuple (sch : schema) (cols : list bytes) (id : bytes) (t : list cv) (vs : list version) : bool :=
-  match vs with
-  | VPut _ r1 :: ((VPut _ r2 :: _) as rest) =>
-      (tuple_eqb (s_nz sch) (tuple_of sch cols id r1) t && negb (tuple_eqb (s_nz sch) (tuple_of sch cols id r2) t))
-      || left_tuple sch cols id t rest
-  | _ :: rest => left_tuple sch cols id t rest
-  | [] => false
-  end.
-Definition poisoned (sch : schema) (cols : list bytes) (t : list cv) (ds : list drec) : bool :=
-  existsb (fun d => left_tuple sch cols (d_id d) t (d_vers d)) ds.
 (* the entry with the smallest document id among those ever written under t *)
 Fixpoint first_entry (sch : schema) (cols : list bytes) (t : list cv) (ds : list drec) (best : option drec) : option drec :=
   match ds with
@@ -571,36 +559,45 @@ Fixpoint first_entry (sch : schema) (cols : list bytes) (t : list cv) (ds : list
         end
       else first_entry sch cols t r best
   end.
-(* true = the write is admitted.  `others` = all documents except the one being written.
-   A tombstone under the bare value prefix is the first key with that prefix: doUpsert then returns
-   early and the write goes through (the read-set validation that could still stop an insert is
-   skipped whenever an earlier snapshot of the transaction is current, which is the case when reads
-   happen between the writes, as in every history the harness ties to this model). *)
-Definition uniq_check1 (sch : schema) (cols : list bytes) (t : list cv)
-           (others : list drec) (all : list drec) : bool :=
-  if poisoned sch cols t all then true
-  else match first_entry sch cols t others None with
-       | None => true
-       | Some d => negb (holds_now sch cols t d)
-       end.
+(* doUpsert: `getWithPrefix(value prefix)` looks at the FIRST key under the prefix only and reports
+   "not found" when that entry is a tombstone; true = the write is admitted *)
+Definition uniq_check1 (sch : schema) (cols : list bytes) (t : list cv) (all : list drec) : bool :=
+  match first_entry sch cols t all None with
+  | None => true
+  | Some d => negb (holds_now sch cols t d)
+  end.
 
 Definition find_doc (ds : list drec) (id : bytes) : option drec :=
   find (fun d => bytes_eqb (d_id d) id) ds.
-Definition others_of (ds : list drec) (id : bytes) : list drec :=
-  filter (fun d => negb (bytes_eqb (d_id d) id)) ds.
 
-(* the unique checks of one upsert of (id, r) *)
-Definition uniq_checks (st : state) (is_insert : bool) (id : bytes) (r : row) : bool :=
-  let sch := st_sch st in
-  forallb (fun ix =>
-    if ix_unique ix then
-      let t := tuple_of sch (ix_cols ix) id r in
-      let same := match find_doc (st_docs st) id with
-                  | Some d => (negb is_insert) && holds_now sch (ix_cols ix) t d   (* reusable entry *)
-                  | None => false
-                  end in
-      same || uniq_check1 sch (ix_cols ix) t (others_of (st_docs st) id) (st_docs st)
-    else true) (s_indexes sch).
+(* tuples for which this transaction already placed its (transient) entry under the bare value
+   prefix: a second document with the same tuple in the same operation finds that entry *)
+Definition pending := list (list bytes * list cv).
+Definition pend_has (nz : bool) (pd : pending) (cols : list bytes) (t : list cv) : bool :=
+  existsb (fun e => list_eqb bytes_eqb (fst e) cols && tuple_eqb nz (snd e) t) pd.
+
+(* the unique checks of one upsert of (id, r): Some pd' = admitted, with the pending entries *)
+Fixpoint uniq_checks_ix (st : state) (is_insert : bool) (id : bytes) (r : row) (ixs : list index)
+         (pd : pending) : option pending :=
+  match ixs with
+  | [] => Some pd
+  | ix :: rest =>
+      if ix_unique ix then
+        let sch := st_sch st in
+        let t := tuple_of sch (ix_cols ix) id r in
+        let same := match find_doc (st_docs st) id with
+                    | Some d => (negb is_insert) && holds_now sch (ix_cols ix) t d   (* reusable entry *)
+                    | None => false
+                    end in
+        if same then uniq_checks_ix st is_insert id r rest pd
+        else if pend_has (s_nz sch) pd (ix_cols ix) t then None
+        else if uniq_check1 sch (ix_cols ix) t (st_docs st)
+             then uniq_checks_ix st is_insert id r rest ((ix_cols ix, t) :: pd)
+             else None
+      else uniq_checks_ix st is_insert id r rest pd
+  end.
+Definition uniq_checks (st : state) (is_insert : bool) (id : bytes) (r : row) (pd : pending) : option pending :=
+  uniq_checks_ix st is_insert id r (s_indexes (st_sch st)) pd.
 
 Fixpoint put_version (ds : list drec) (id : bytes) (v : version) : list drec :=
   match ds with
@@ -618,26 +615,28 @@ Definition with_id (sch : schema) (doc : jv) (id : bytes) : jv :=
   JObj (obj_set (s_id sch) (JStr (hex_encode id)) (doc_fields doc)).
 
 (* one upsert inside a transaction (upsertDocuments + doUpsert) *)
-Definition upsert1 (st : state) (is_insert : bool) (id : bytes) (payload : jv) : res state :=
+Definition upsert1 (st : state) (is_insert : bool) (id : bytes) (payload : jv) (pd : pending)
+  : res (state * pending) :=
   do r <- gen_row (s_fields (st_sch st)) payload;
   if is_insert && match find_doc (st_docs st) id with Some _ => true | None => false end then Err EExists
-  else if uniq_checks st is_insert id r then
-    Ok (mkst (st_sch st) (put_version (st_docs st) id (VPut payload r)))
-  else Err EConflict.
+  else match uniq_checks st is_insert id r pd with
+       | Some pd' => Ok (mkst (st_sch st) (put_version (st_docs st) id (VPut payload r)), pd')
+       | None => Err EConflict
+       end.
 
-Fixpoint insert_all (st : state) (l : list (bytes * jv)) : res state :=
+Fixpoint insert_all (st : state) (l : list (bytes * jv)) (pd : pending) : res state :=
   match l with
   | [] => Ok st
   | (id, doc) :: r =>
       if has_key doc doc_blob then Err EArgs
       else if has_key doc (s_id (st_sch st)) then Err EArgs
-      else do st' <- upsert1 st true id (with_id (st_sch st) doc id); insert_all st' r
+      else do sp <- upsert1 st true id (with_id (st_sch st) doc id) pd; insert_all (fst sp) r (snd sp)
   end.
 
-Fixpoint replace_all (st : state) (ids : list bytes) (doc : jv) : res state :=
+Fixpoint replace_all (st : state) (ids : list bytes) (doc : jv) (pd : pending) : res state :=
   match ids with
   | [] => Ok st
-  | id :: r => do st' <- upsert1 st false id (with_id (st_sch st) doc id); replace_all st' r doc
+  | id :: r => do sp <- upsert1 st false id (with_id (st_sch st) doc id) pd; replace_all (fst sp) r doc (snd sp)
   end.
 
 (* ReplaceDocuments: the id comparison injected when the document carries its id *)
@@ -674,6 +673,25 @@ Inductive out :=
 | XGet (rev : N) (payload : jv)
 | XAudit (l : list (N * option jv)).
 
+(* CreateIndexStmt "check table is empty": the FIRST key of the primary index is read; a tombstone
+   there reads as "not found" = empty *)
+Fixpoint first_doc (ds : list drec) (best : option drec) : option drec :=
+  match ds with
+  | [] => best
+  | d :: r => match best with
+              | Some b => match bcmp (d_id d) (d_id b) with
+                          | Lt => first_doc r (Some d)
+                          | _ => first_doc r best
+                          end
+              | None => first_doc r (Some d)
+              end
+  end.
+Definition first_doc_live (ds : list drec) : bool :=
+  match first_doc ds None with
+  | Some d => match cur d with Some _ => true | None => false end
+  | None => false
+  end.
+
 Definition index_eqb (cols : list bytes) (ix : index) : bool := list_eqb bytes_eqb cols (ix_cols ix).
 
 Fixpoint number_from (n : N) (vs : list version) : list (N * option jv) :=
@@ -688,7 +706,7 @@ Definition step (st : state) (o : op) : state * out :=
   | OInsert l =>
       match l with
       | [] => (st, XErr)
-      | _ => match insert_all st l with
+      | _ => match insert_all st l [] with
              | Ok st' => (st', XWritten (map (fun p => (fst p, rev_of st' (fst p))) l))
              | _ => (st, XErr)
              end
@@ -697,7 +715,7 @@ Definition step (st : state) (o : op) : state * out :=
       match engine_search st (inject_id sch doc q) 0 with
       | Ok rows =>
           let ids := map l_id rows in
-          match replace_all st ids doc with
+          match replace_all st ids doc [] with
           | Ok st' => (st', XWritten (map (fun id => (id, rev_of st' id)) ids))
           | _ => (st, XErr)
           end
@@ -729,7 +747,7 @@ Definition step (st : state) (o : op) : state * out :=
       | _ =>
           if negb (forallb (col_exists sch) cols) || existsb (index_eqb cols) (s_indexes sch)
              || list_eqb bytes_eqb cols (primary_cols sch)
-             || (uniq && match lives (st_docs st) with [] => false | _ => true end)
+             || (uniq && first_doc_live (st_docs st))
           then (st, XErr)
           else (mkst (mksch (s_id sch) (s_fields sch) (s_indexes sch ++ [mkix cols uniq]) (s_next sch) (s_nz sch))
                      (st_docs st), XOk)
